@@ -217,17 +217,29 @@ def run_case(case):
         elif any(not (abs(got[p] - want[p]) <= 1e-13) for p in want):
             fails.append(fail("boundary_off_weights", "level %r box %r-%r: weights %r expected %r" % (lv, s, e, sorted(got.items()), sorted(want.items())), k2))
         outcome += (len(p0),)
-    elif name in ("simpson", "clenshaw_curtis") and min(lv) >= 1:
-        # point contract with boundary points off: as many points as announced, all inside the sub-box
+    elif name in ("simpson", "clenshaw_curtis", "leja") and min(lv) >= 1:
+        # point contract with boundary points off: as many points as announced, all inside the sub-box, one weight per point and
+        # dimension (a grid that refuses the request by an assertion is not wrong)
         gb = _grid(name, a, b, False)
-        gb.setCurrentArea(np.array(s, dtype=float), np.array(e, dtype=float), list(lv))
-        p0 = [tuple(float(x) for x in p) for p in gb.getPoints()]
-        n0 = int(np.prod(gb.levelToNumPoints(list(lv))))
-        if len(p0) != n0:
-            fails.append(fail("boundary_off_announced_point_number", "%d points, %d announced" % (len(p0), n0), key))
-        if any(not (s[k] - tol * (1 + abs(s[k])) <= p[k] <= e[k] + tol * (1 + abs(e[k]))) for p in p0 for k in range(d)):
-            fails.append(fail("boundary_off_points_inside_subbox", "points %r, box %r-%r" % (p0[:4], s, e), key))
-        outcome += (len(p0),)
+        whole = all(s[k] == a[k] and e[k] == b[k] for k in range(d))
+        k3 = dict(key, whole_domain=whole)
+        try:
+            gb.setCurrentArea(np.array(s, dtype=float), np.array(e, dtype=float), list(lv))
+            p0 = [tuple(float(x) for x in p) for p in gb.getPoints()]
+            n0 = int(np.prod(gb.levelToNumPoints(list(lv))))
+            refused = False
+        except AssertionError:
+            refused, p0, n0 = True, [], 0
+        if not refused:
+            if len(p0) != n0:
+                fails.append(fail("boundary_off_announced_point_number", "level %r box %r-%r: %d points, %d announced" % (lv, s, e, len(p0), n0), k3 if name == "leja" else key))
+            if any(not (s[k] - tol * (1 + abs(s[k])) <= p[k] <= e[k] + tol * (1 + abs(e[k]))) for p in p0 for k in range(d)):
+                fails.append(fail("boundary_off_points_inside_subbox", "points %r, box %r-%r" % (p0[:4], s, e), key))
+            nw = [len(gb.weights[k]) for k in range(d)]
+            nc = [len(gb.coordinate_array[k]) for k in range(d)]
+            if nw != nc:
+                fails.append(fail("boundary_off_one_weight_per_point", "level %r box %r-%r: %r points and %r weights per dimension" % (lv, s, e, nc, nw), k3))
+        outcome += (len(p0), refused)
     return {"failures": fails, "canon": core.config_key(c), "outcome": outcome, "nontrivial": len(pts) > 1, "evals": len(exps) + 1}
 
 
